@@ -432,10 +432,24 @@ func c03Join(r *Rand, toks []string, layout bool) string {
 			}
 			sb.WriteString(sep)
 		}
+		if layout && c03Keywords[t] && r.Intn(6) == 0 {
+			// keywords are matched case-insensitively; the token keeps its spelling
+			switch r.Intn(3) {
+			case 0:
+				t = strings.ToUpper(t)
+			case 1:
+				t = strings.ToUpper(t[:1]) + t[1:]
+			default:
+				t = t[:len(t)-1] + strings.ToUpper(t[len(t)-1:])
+			}
+		}
 		sb.WriteString(t)
 	}
 	return sb.String()
 }
+
+var c03Keywords = map[string]bool{"and": true, "or": true, "not": true, "like": true, "in": true, "hasprefix": true,
+	"hassuffix": true, "notin": true, "true": true, "false": true, "null": true}
 
 type c03G struct {
 	g      *Gen
